@@ -42,6 +42,9 @@ func c07SeqJob(tier string) *SeqJob {
 				o := scopeOpts(rec, cached, true) // a reporter that can be closed: only the root's Close may close it
 				o.SanitizeOptions = &so
 				root, _ := tally.VerifNewRootScope(o, 0, shards)
+				// the reporter reports on itself: every Flush it is given counts itself on a scope of this root (a call
+				// back into the library from a reporter's Flush: nothing the library holds at that moment may be in the way)
+				rec.OnFlush = func() { root.Tagged(map[string]string{"component": "reporter"}).Counter("flushes").Inc(1) }
 				type obj struct {
 					s      tally.Scope
 					closed bool
